@@ -190,19 +190,21 @@ handler!(get_status(state: Extension<Arc<GlobalState>>) -> impl IntoResponse {
 });
 
 handler!(get_alive(state: Extension<Arc<GlobalState>>) -> impl IntoResponse {
+    // take a snapshot and release the registry lock before waiting for any connection's own lock:
+    // create_context() and the GC need the registry for every new and every finished connection
+    let alive = state
+        .contexts
+        .alive
+        .lock()
+        .await
+        .values()
+        .filter_map(Weak::upgrade)
+        .collect::<Vec<_>>();
     Json(
-        futures::stream::iter(
-            state
-                .contexts
-                .alive
-                .lock()
-                .await
-                .values()
-                .filter_map(Weak::upgrade),
-        )
-        .then(|x| async move { x.read().await.props().clone() })
-        .collect::<Vec<_>>()
-        .await,
+        futures::stream::iter(alive)
+            .then(|x| async move { x.read().await.props().clone() })
+            .collect::<Vec<_>>()
+            .await,
     )
 });
 
